@@ -127,13 +127,17 @@ CHECKS = {
         note=NOTE_COMMON + "Partial: 'an accepting filter verdict on arbitrary floats is the exact sign' (Shewchuk bound) is oracle-checked, not proved.",
     ),
     "C11": dict(
-        technique="Lean 4 theorems over linearly ordered fields (crossing rule, boundary rule, left-edge shortcut, Devillers permutation and reduction steps) + bit-exact correspondence + exact rational even-odd oracle with exhaustive small grids",
+        technique="Lean 4 theorems over linearly ordered fields (LocatePointInRing = even-odd rule for every closed ring given an exact determinant sign: per-edge case analysis + induction over the ring; crossing rule, boundary rule, left-edge shortcut, Devillers permutation and reduction steps) + bit-exact correspondence + exact rational even-odd oracle with exhaustive small grids",
         text="Theorems: the counter's sign-adjusted determinant test is exactly 'the edge meets the ray strictly right of the point' (C11_crossing_sign), a zero "
              "determinant on a straddling edge is exactly 'the point is on the edge' (C11_zero_det_on_edge), edges strictly left never count "
-             "(C11_left_edge_never_counts), and the permutation and reduction steps of Devillers' routine preserve sign*determinant. The whole routine "
+             "(C11_left_edge_never_counts), and the permutation and reduction steps of Devillers' routine preserve sign*determinant. C11_locate_eq_spec: for every "
+             "linearly ordered field, every closed ring and every point, given that the determinant-sign routine returns the exact sign, LocatePointInRing returns "
+             "boundary iff the point lies on some edge, and otherwise interior iff an odd number of edges cross the ray to its right - through every early exit of "
+             "countSegment (edges left of the point, horizontal edges, vertices level with the point, the early return at the first boundary hit; detE_sound, "
+             "detE_complete, incE_spec, locateLoop_eq). The whole routine "
              "(SignOfDet2x2 + counter) is mirrored in Lean Float and compared with Go and with the exact even-odd rule on every triangle of the 4x4 grid "
              "against every grid point each run, plus random rings up to 2^26.",
-        note=NOTE_COMMON + "Partial: termination/correctness of the Euclidean loop and the fold over all edges are oracle-checked (exhaustively on small grids), not proved.",
+        note=NOTE_COMMON + "Partial: the exactness of SignOfDet2x2's Euclidean main loop is a hypothesis of C11_locate_eq_spec (its permutation stage and reduction steps are proved; the loop as a whole is oracle-checked, exhaustively on small grids); float inputs are exact rationals, so the exact-arithmetic theorem applies to them given that hypothesis.",
     ),
     "C12": dict(
         technique="Lean 4 theorems over linearly ordered fields (soundness of the same-side exits, homogeneous-coordinate point lies on both lines, translation invariance of the formula) + bit-exact correspondence + exact rational point-set oracle with exhaustive small grids",
